@@ -36,6 +36,13 @@ CORPUS = [
 ]
 
 
+CORPUS.append(("bitmap-gaps", ["cbdt", "sbix"], [
+    '<svg xmlns="http://www.w3.org/2000/svg" viewBox="0 0 100 100"><path d="M10,10 L90,10 L90,90 L10,90 Z" fill="red"/></svg>',
+    '<svg xmlns="http://www.w3.org/2000/svg" viewBox="0 0 100 100"><path d="M50,10 L90,90 L10,90 Z" fill="blue"/></svg>',
+    '<svg xmlns="http://www.w3.org/2000/svg" viewBox="0 0 100 100"><path d="M10,50 L50,10 L90,50 L50,95 Z" fill="#00ff00"/></svg>',
+], [(), (0x1F600,), (0x1F601,)]))  # coloured art for .notdef (glyph 0), blank space (glyph 1), two emoji: bitmaps at glyph ids 0, 2, 3
+
+
 def run_e2e(report, n_fonts, rng):
     lits, metas = [], []
     plan = [(fmt, c[0], (c[2], c[3] if len(c) > 3 else None)) for c in CORPUS for fmt in c[1]] + [(ALL_FORMATS[i % len(ALL_FORMATS)], None, None) for i in range(n_fonts)]
@@ -47,10 +54,10 @@ def run_e2e(report, n_fonts, rng):
         if bitmap:
             over["bitmap_resolution"] = 32
         if corpus_texts is not None:
-            over = dict(color_format=fmt, output_file="Font.ttf")
+            over = dict(color_format=fmt, output_file="Font.ttf", **(dict(bitmap_resolution=32) if bitmap else {}))
             texts, cps_list = corpus_texts
             cps_list = cps_list or [(0x1F600 + k,) for k in range(len(texts))]
-            srcs = [(build.filename_for(c), t, c) for t, c in zip(texts, cps_list)]
+            srcs = [(build.filename_for(c) if c else "notdef.svg", t, c) for t, c in zip(texts, cps_list)]
         elif rng.random() < 0.5:
             docs, srcs = e2e.gen_sources(rng, n=rng.randint(1, 6), var_opaque=fmt.endswith("_0"))
             if rng.random() < 0.5:  # sequences too, so GSUB is present while glyphs are reshuffled
@@ -60,7 +67,7 @@ def run_e2e(report, n_fonts, rng):
             docs, srcs = e2e.gen_sources(rng, n=rng.randint(2, 8), solid_only=True, var_opaque=True)
         if bitmap:
             srcs = [(fn, t, cps, png_for(k, rng.choice([32, 16, 48]), 32)) for k, (fn, t, cps) in enumerate(srcs)]
-            if rng.random() < 0.5:
+            if rng.random() < 0.5 and corpus_name != "bitmap-gaps":
                 # gaps between colour glyphs: extra sequence-only codepoints create blanks in between
                 srcs = [(build.filename_for((0x1F600 + 2 * k, 0x200D, 0x1F3FB + k)), t, (0x1F600 + 2 * k, 0x200D, 0x1F3FB + k), p) for k, (fn, t, cps, p) in enumerate(srcs)]
         case = dict(kind="e2e", format=fmt, config={k: str(v) for k, v in over.items()}, sources=[s[1] for s in srcs])
@@ -109,8 +116,24 @@ def run_maximum_color(report, n, rng):
             flags = [f for f in flags if f != "--keep_glyph_names"] + ["--bitmaps"]  # bitmaps without names: post must be 3
         plans.append((i, kind, sub, flags))
 
+    plans.append((n, "picosvg with a glyph that paints nothing", random.Random(rng.getrandbits(48)), ["--bitmaps"]))
+
+    def empty_in_the_middle():
+        H = '<svg xmlns="http://www.w3.org/2000/svg" viewBox="0 0 100 100">'
+        texts = [H + '<path d="M10,10 L50,10 L50,50 L10,50 Z" fill="red"/></svg>', H + "<defs/></svg>",
+                 H + '<path d="M40,40 L80,40 L80,80 L40,80 Z" fill="blue"/></svg>',  # the first one's square, moved: one sharing group
+                 H + '<path d="M50,10 L90,90 L10,90 Z" fill="#00aa00"/></svg>', H + '<path d="M10,50 L50,10 L90,50 L50,95 Z" fill="#123456"/></svg>']
+        srcs = [(build.filename_for((0x1F600 + k,)), t, (0x1F600 + k,)) for k, t in enumerate(texts)]
+        over = dict(color_format="picosvg", upem=1000, ascender=800, descender=-200, width=1000, output_file="Font.ttf")
+        font, cfg, picos, data = build.build_inprocess(over, srcs)
+        return data, dict(format="picosvg", config={k: str(v) for k, v in over.items()}, sources=texts, glyph_order=font.getGlyphOrder())
+
     def work(plan):
         i, kind, sub, flags = plan
+        if kind.startswith("picosvg with a glyph"):
+            data, info = empty_in_the_middle()
+            rc, log, out = c12.run_maximum_color(data, flags)
+            return plan, info, rc, log, out
         data, info = c12.nanoemoji_font(sub, kind, v0_expressible="0" in flags, bitmaps="--bitmaps" in flags)
         rc, log, out = c12.run_maximum_color(data, flags)
         return plan, info, rc, log, out
